@@ -41,6 +41,13 @@ def run(ctx):
   # "signatures of other issuers in the same batch keep their own verdict": every signature gets an entry created for it alone (shared with C16)
   from . import c16
   c16.rule_isolated(ctx, T.bodies(ctx.repo), "R-C08-OWN", lambda w: w.startswith("ecdsa_sig_checks:"))
+  # "records the correct private key": a lattice guess is accepted by comparing guess * G with the issuer's point, so the comb multiplication must be
+  # exact on every supported curve (shared with C11), and the (r, s, z) handed to the lattice must be the signature's own (shared with C09)
+  from . import c11, c09
+  ctx.borrow(c11.rule_comb, "R-C08-GUESS")
+  ctx.borrow(c09.rule_feed, "R-C08-FEED")
+  ctx.expect("R-C08-GUESS", 4, "comb obligations of BatchMultiplyG")
+  ctx.expect("R-C08-FEED", 4, "ECDSAValues obligations")
   ctx.expect("R-C08-OWN", 3, "BiasedBaseCheck, CheckCr50U2f, CheckIssuerKey")
   ctx.expect("R-C08-GROUP", 4, "two checks x (partition, issuer grouping)")
   ctx.expect("R-C08-WINDOW", 3, "sizes, aligned slices, accumulation")
